@@ -23,6 +23,8 @@ EXPLANATION = (
 
 
 def run(ctx: Ctx) -> None:
+    from ..rules import effects as _eff
+    _eff.rule_weighted_fidelity(ctx)
     from ..rules import memo as _memo
     _memo.rule_memo_sound(ctx, ['graphiq/backends/density_matrix/functions.py', 'graphiq/metrics.py', 'graphiq/backends/density_matrix/state.py'])
     numeric.rule_adjoint(ctx, [DMF, DMS])
@@ -107,6 +109,7 @@ def rule_rep_dispatch(ctx: Ctx) -> None:
 
 
 KNOCKOUTS = [
+    Knockout("branch-fidelity-unweighted", "graphiq/metrics.py", sub_once("[p_i * sfm.fidelity(tableau, t_i) for p_i, t_i in rep_data.mixture]", "[sfm.fidelity(tableau, t_i) for p_i, t_i in rep_data.mixture]"), "weight.fidelity", "not weighted"),
     Knockout("trace-distance-one-pure-shortcut", DMF, sub_once("    eigvals, _ = eigh(rho - sigma)\n", "    if is_pure(rho) or is_pure(sigma):\n        return np.sqrt(1.0 - np.real(np.trace(rho @ sigma)))\n    eigvals, _ = eigh(rho - sigma)\n"), "dist.shape", "shortcut not restricted"),
     Knockout("einsum-dropped-label-reversed", DMF, sub_once("string.ascii_uppercase[i] if i in keep else string.ascii_lowercase[i]", "string.ascii_uppercase[i] if i in keep else string.ascii_lowercase[ndim - 1 - i]"), "num.einsum-trace", "do not pair row i"),
     Knockout("fidelity-one-sided-product", DMF, sub_once("rho_sigma = sqrt_rho @ sigma @ sqrt_rho", "rho_sigma = sqrt_rho @ sqrt_rho @ sigma"), "num.hermitian-arg", "non-Hermitian product"),
